@@ -566,6 +566,17 @@ func c02(c *Ctx) {
 		}
 		R.Min("R02.8", "callers of snapshot.hasMessage", k, 5)
 	}
+	// the exported getter built on it inherits the restriction: inside internal/state nothing calls it (update
+	// filters and Apply methods run before the queued EXISTS responders were applied)
+	if g := c.fnOpt("internal/state.(*State).HasMessage"); g != nil {
+		for _, cs := range P.CallersOf(g) {
+			rel := engine.RelPkg(P.OwnPkgPath(cs.Fn))
+			if rel != "internal/state" || cs.Common().StaticCallee() != g {
+				continue
+			}
+			R.Check(false, "R02.8", c.name(cs.Fn)+"|State.HasMessage", P.Pos(cs.Pos()), "", "State.HasMessage (the snapshot alone) is consulted inside internal/state, where updates are filtered and applied before the queued responders: a message whose EXISTS is still pending is treated as absent and the change for it is dropped (use hasOrWillHaveMessage)")
+		}
+	}
 }
 
 func isParamLoad(v ssa.Value) bool {
